@@ -45,6 +45,7 @@ fn main() {
         "record" => cmd_record::run(&args),
         "replay-compare" => cmd_compare::run(&args),
         "replay-linkage" => cmd_linkage::run(&args),
+        "record-linkage" => cmd_linkage::record(&args),
         "replay-setmeta" => cmd_setmeta::run(&args),
         "replay-setmachine" => cmd_setmachine::run(&args),
         "replay-group" => cmd_group::run(&args),
